@@ -274,6 +274,10 @@ func run1(raw json.RawMessage, skipOut *bool) driver.Result {
 		res := runBytes(in, fail)
 		res.Direct = direct
 		return res
+	case "casex":
+		res := runCaseShift(in, fail)
+		res.Direct = direct
+		return res
 	case "doc":
 		res := runDoc(in, fail)
 		res.Direct = direct
@@ -465,6 +469,8 @@ func gen(r *coqfmt.Rng, n int, tier string) []json.RawMessage {
 			add(input{K: "envp", Cfg: r.Intn(nEnvCfgs), Env: genEnvp(r)})
 		case x >= 94:
 			add(genDoc(r))
+		case x >= 91:
+			add(genCaseShift(r))
 		case x < 3:
 			add(genBytesCase(r, tg))
 		case x < 7:
@@ -529,6 +535,7 @@ func corpus() []json.RawMessage {
 	}
 	extraCorpus(add)
 	docCorpus(add)
+	caseShiftCorpus(add)
 	return out
 }
 
